@@ -20,7 +20,7 @@ ID = "C09"
 LEVEL = "exploration"
 TECHNIQUE = "generated models, call partitions and per-step settings (Hypothesis); differential across batch / session / REST channels and vs Euler reference with a settings schedule"
 RULE = ("cases = (stock/flow model with graphical function, run spec, requested equations [subset, order], partition of the run into "
-        "run-step / run-steps k / stream-steps calls, per-call settings in {none, {}, constants, points}, flat or nested results); "
+        "run-step / run-steps k / stream-steps calls, per-call settings in {none, {}, constants, points}, flat or nested results, sessions over two scenarios with settings addressed to one, starts -8..2.5 incl. stop <= 0); "
         "channels: run_scenarios df/dict/json, Python session + session_results (by time / by equation / flat), REST run, run-step, "
         "run-steps, stream-steps, session-results, flat-session-results. non-trivial = the partition has >= 2 calls of different kinds "
         "or a setting at a step k >= 1, and dt != 1 or start != 1; distinct by case")
